@@ -221,7 +221,9 @@ def outside(ps, tols, v):
 
 def call_sbx(ps, prob, di, p1, p2, draws):
     from artap.operators import SimulatedBinaryCrossover
-    op = SimulatedBinaryCrossover(ps, prob, di)
+    live = live_params(ps, int(float(di) * 7 + len(ps)) % 4 == 0)
+    op = SimulatedBinaryCrossover(live, prob, di)
+    settle_params(live, ps)
     with draws:
         return op.cross(list(p1), list(p2))
 
@@ -307,14 +309,36 @@ def exec_sbx(case):
 MUT_KINDS = ["pm", "uniform", "nonuniform"]
 
 
+def live_params(ps, late):
+    """Parameter dicts handed to an operator's constructor.  With `late`, the box is declared wider at construction
+    time and re-declared (in place) to the real one before the operator is used - as when an algorithm object is
+    built first and the search region is narrowed afterwards; operators must work with the box declared now."""
+    live = [dict(p, bounds=list(p["bounds"])) for p in ps]
+    if late:
+        for d in live:
+            lb, ub = d["bounds"]
+            if abs(lb) < 1e50 and abs(ub) < 1e50:
+                d["bounds"] = [lb - (ub - lb), ub + 2 * (ub - lb)]
+    return live
+
+
+def settle_params(live, ps):
+    for d, p in zip(live, ps):
+        d["bounds"] = list(p["bounds"])
+
+
 def make_mutator(case):
     from artap.operators import PmMutator, UniformMutator, NonUniformMutation
     ps = case["params"]
+    live = live_params(ps, case.get("draw_seed", 1) % 4 == 0)
     if case["kind"] == "pm":
-        return PmMutator(ps, case["prob"], case["di"])
-    if case["kind"] == "uniform":
-        return UniformMutator(ps, case["prob"], case["pert"])
-    return NonUniformMutation(ps, case["prob"], case["max_it"], case["pert"])
+        op = PmMutator(live, case["prob"], case["di"])
+    elif case["kind"] == "uniform":
+        op = UniformMutator(live, case["prob"], case["pert"])
+    else:
+        op = NonUniformMutation(live, case["prob"], case["max_it"], case["pert"])
+    settle_params(live, ps)
+    return op
 
 
 def exec_mut(case):
@@ -849,7 +873,7 @@ def exec_run(case):
     """Runs the algorithm with a logging objective; returns the evaluated vectors in order."""
     import random as _r
     log = []
-    ps = [dict(p, bounds=list(p["bounds"])) for p in case["params"]]
+    ps = [dict(p, bounds=list(p["bounds"])) for p in case.get("params_init", case["params"])]
     pr = make_problem(ps, case["n_costs"], log)
     old = signal.signal(signal.SIGALRM, _alarm)
     signal.setitimer(signal.ITIMER_REAL, case.get("timeout", 3.0))
@@ -861,6 +885,11 @@ def exec_run(case):
         alg.options["max_processes"] = 1
         for k, v in case["options"].items():
             alg.options[k] = v
+        if "params_init" in case:
+            # the box is re-declared (narrowed) after the algorithm object exists, before the run: every operator
+            # must work with the box declared now
+            for live, final in zip(pr.parameters, case["params"]):
+                live["bounds"] = list(final["bounds"])
         with Draws(_r.Random(case["draw_seed"]), bias=case["bias"]):
             alg.run()
     except RunTimeout:
@@ -887,9 +916,17 @@ def gen_run_case(rng, quick):
         opts["prob_mutation"] = rng.choice([1.0, 0.5, 1.0 / dim, 0.3 + 0.7 * rng.random()])
     else:
         opts["prob_mutation"] = rng.choice([1.0, 0.5, 0.1, rng.random()])
-    return {"op": "run", "algo": algo, "params": ps, "N": rng.randint(2, 12), "G": rng.randint(1, 6 if quick else 10),
+    case = {"op": "run", "algo": algo, "params": ps, "N": rng.randint(2, 12), "G": rng.randint(1, 6 if quick else 10),
             "n_costs": rng.choice([1, 2, 2, 3]), "options": opts, "draw_seed": rng.getrandbits(48),
             "bias": rng.choice([0.0, 0.2, 0.5])}
+    if rng.random() < 0.3 and not any("precision" in p for p in ps):
+        wide = []
+        for p in ps:
+            lb, ub = p["bounds"]
+            w = ub - lb
+            wide.append(dict(p, bounds=[lb - rng.choice([0.0, 0.5, 1.0]) * w, ub + rng.choice([0.0, 0.5, 2.0]) * w]))
+        case["params_init"] = wide
+    return case
 
 
 def stream_runs(ctx, n):
